@@ -5,7 +5,8 @@ import MemcVerif.Model.Wire
 -/
 namespace Memc
 
-def VERSION : String := "0.0.1"
+/-- `MEMCRS_VERSION` = "0.0.1" -/
+def VERSION : Bytes := [48, 46, 48, 46, 49]
 
 /-- `into_quiet_get` -/
 def intoQuietGet (r : Resp) : Option Resp :=
@@ -87,7 +88,7 @@ def handleRequest (s : σ) (now : Nat) (req : Req) : σ × Option Resp :=
     if h.opcode = 0x0a then (s, some (.plain rh))              -- Noop
     else if h.opcode = 0x07 then (s, some (.quit rh))           -- Quit
     else if h.opcode = 0x17 then (s, none)                      -- QuitQuietly
-    else (s, some (.version { rh with bodyLen := (strBytes VERSION).length } VERSION))  -- Version, Stat
+    else (s, some (.version { rh with bodyLen := VERSION.length } VERSION))  -- Version, Stat
   | .flush _ exp =>
     let s' := C.flush s now exp
     (s', if quietFlushOp h.opcode then none else some (.plain rh))
